@@ -1036,6 +1036,10 @@ def with_sign(r, atom):
     return s + atom + close_parens(s)
 
 
+ZERO_CLUSTER = ['-0.0', '0.0', '-0', '0', 'fp.rational(0, 5)', 'fp.rational(0, 7)', "fp.hexfloat('0x0p+0')",
+                "fp.hexfloat('-0x0p+0')", "fp.hexfloat('0x0.0p3')", 'fp.digits(0, 0, 2)', 'fp.digits(0, 3, 10)', '-0.00', '-0e5']
+
+
 def gen_batch(r, fam, size):
     """-> (exprs, metas): batchable expressions (each denotes a number)."""
     plan = [(gen_int, 6, []), (gen_decimal, 8, []), (gen_long, 5, []), (gen_bigint_float, 5, []), (gen_extreme, 6, []),
@@ -1058,6 +1062,13 @@ def gen_batch(r, fam, size):
         e = atom if g is gen_zero else with_sign(r, atom)
         exprs.append(e)
         metas.append(list(meta))
+    if r.random() < 0.5:
+        # zeros of both signs in several spelling families inside one function (they are equal as numbers, so
+        # anything that pools or memoises constants by value confuses them)
+        for z in r.sample(ZERO_CLUSTER, r.randint(3, 5)):
+            k = r.randrange(len(exprs) + 1)
+            exprs.insert(k, z)
+            metas.insert(k, ['zero-cluster'])
     return exprs, metas
 
 
